@@ -203,12 +203,22 @@ Section Match2.
   Proof. intros H IL v Ev Z. destruct (filled_inv _ _ _ _ _ _ _ _ _ _ _ _ _ _ _ _ H) as (deal' & _ & _ & _ & IA & _).
     unfold inactive in IA. rewrite IL, Ev in IA. cbn [andb] in IA. apply qeq_b_false in IA. contradiction. Qed.
 
-  Lemma volume_cap_bound v : 0 < i_lot i -> volume_cap g i v turnover <= zq (qround_even (qmul v (m_volume_percent g))) - turnover.
-  Proof. intros Hl. unfold volume_cap. set (R := zq (qround_even (qmul v (m_volume_percent g)))).
+  Lemma lot_cap_le v : 0 < i_lot i -> lot_cap g i v <= zq (qround_even (qmul v (m_volume_percent g))).
+  Proof. intros Hl. unfold lot_cap. set (R := zq (qround_even (qmul v (m_volume_percent g)))).
+    rewrite qmul_ok. set (Y := qdiv R (i_lot i)).
+    assert (F : zq (Qfloor Y) <= Y) by (unfold zq; apply Qfloor_le).
+    assert (E : Y * i_lot i == R) by (unfold Y; qnorm; field; lra).
+    apply Qle_trans with (Y * i_lot i); [apply Qmult_le_compat_r; [assumption|lra]|rewrite E; apply Qle_refl]. Qed.
+  (* what a call may still trade keeps the bar inside its allowance in whole lots ... *)
+  Lemma volume_cap_bound_lots v : 0 < i_lot i -> volume_cap g i v turnover <= lot_cap g i v - turnover.
+  Proof. intros Hl. unfold volume_cap. set (R := lot_cap g i v).
     rewrite qmul_ok. set (X := qdiv (qsub R turnover) (i_lot i)).
     assert (F : zq (Qfloor X) <= X) by (unfold zq; apply Qfloor_le).
     assert (E : X * i_lot i == R - turnover) by (unfold X; qnorm; field; lra).
     rewrite <- E. apply Qmult_le_compat_r; [assumption|lra]. Qed.
+  (* ... hence inside round(volume * percent) *)
+  Lemma volume_cap_bound v : 0 < i_lot i -> volume_cap g i v turnover <= zq (qround_even (qmul v (m_volume_percent g))) - turnover.
+  Proof. intros Hl. pose proof (volume_cap_bound_lots v Hl). pose proof (lot_cap_le v Hl). lra. Qed.
   Lemma volume_cap_lots v : exists k : Z, volume_cap g i v turnover == zq k * i_lot i.
   Proof. unfold volume_cap. eexists. qnorm. reflexivity. Qed.
 
@@ -229,4 +239,11 @@ Section Match2.
       + split; [lra|]. split; [lra|]. split; [left; reflexivity|]. intros _ v' Ev'. rewrite Ev in Ev'. injection Ev' as <-. lra.
       + split; [lra|]. split; [lra|]. split; [right; exists k; assumption|]. intros _ v' Ev'. rewrite Ev in Ev'. injection Ev' as <-. lra.
   Qed.
+  (* ... and inside the allowance rounded down to whole lots, also when an odd-lot liquidation made the turnover odd *)
+  Theorem fill_within_lot_cap price qty ct rc : M = Filled price qty ct rc -> 0 < i_lot i -> m_volume_limit g = true ->
+    forall v, vol = Some v -> turnover + qty <= lot_cap g i v.
+  Proof. intros H Hl VL v Ev. destruct (filled_inv _ _ _ _ _ _ _ _ _ _ _ _ _ _ _ _ H) as (deal' & _ & _ & _ & _ & F & _).
+    unfold fill_amount in F. rewrite VL, Ev in F. destruct (qle_b (volume_cap g i v turnover) 0); [discriminate|]. injection F as F.
+    pose proof (volume_cap_bound_lots v Hl) as B.
+    destruct (qmin_spec unfilled (volume_cap g i v turnover)) as [[A E]|[A E]]; rewrite E in F; subst qty; lra. Qed.
 End Match2.
